@@ -17,6 +17,7 @@ import (
 	"github.com/New-JAMneration/JAM-Protocol/PVM"
 	"github.com/New-JAMneration/JAM-Protocol/internal/types"
 	"github.com/New-JAMneration/JAM-Protocol/internal/utilities/hash"
+	"github.com/New-JAMneration/JAM-Protocol/internal/utilities/merklization"
 	h "github.com/New-JAMneration/JAM-Protocol/internal/verifh"
 )
 
@@ -226,9 +227,17 @@ func gen(rng *h.Rng, tier string, emit func(string)) {
 			case 'n', 'c':
 				ops = append(ops, string(c))
 			case 'd':
-				ops = append(ops, fmt.Sprintf("d%d", rng.Intn(6)))
+				k := rng.Intn(6)
+				if rng.Chance(1, 3) {
+					k = 20 + rng.Intn(3) // an entry still held as a raw key-value
+				}
+				ops = append(ops, fmt.Sprintf("d%d", k))
 			case 'w':
-				ops = append(ops, fmt.Sprintf("w%d", rng.Intn(6)))
+				k := rng.Intn(6)
+				if rng.Chance(1, 3) {
+					k = 20 + rng.Intn(3)
+				}
+				ops = append(ops, fmt.Sprintf("w%d", k))
 			case 'p':
 				ops = append(ops, fmt.Sprintf("p%d", rng.Intn(4)))
 			default:
@@ -292,6 +301,8 @@ func run(input string) string {
 		bl := blobOf(k)
 		acc.LookupDict[types.LookupMetaMapkey{Hash: hash.Blake2bHash(bl), Length: types.U32(len(bl))}] = types.TimeSlotSet{}
 	}
+	acc.ServiceInfo.Items += 3
+	acc.ServiceInfo.Bytes += 3 * (34 + 2 + 3)
 	d := types.ServiceAccountState{self: acc, receiver: mkAccount(nil, 5000)}
 	ps := types.PartialStateSet{
 		ServiceAccounts: d,
@@ -305,7 +316,16 @@ func run(input string) string {
 		ps.Authorizers[c] = make(types.AuthQueue, types.AuthQueueSize)
 	}
 	origCode := acc.ServiceInfo.CodeHash
-	res := PVM.Psi_A(ps, 7, self, types.Gas(gas), nil, types.Entropy{}, types.StateKeyVals{})
+	// three storage entries of the service that are still held as raw (unattributed) key-values
+	var raw types.StateKeyVals
+	rawKeys := map[types.StateKey]int{}
+	for k := 20; k <= 22; k++ {
+		kv := merklization.WrapEncodeDelta2KeyVal(self, keyOf(k), nil)
+		kv.Value = []byte{byte(k), 0x52, 0x52}
+		raw = append(raw, kv)
+		rawKeys[kv.Key] = k
+	}
+	res := PVM.Psi_A(ps, 7, self, types.Gas(gas), nil, types.Entropy{}, raw)
 	out := res.PartialStateSet.ServiceAccounts
 	me, ok := out[self]
 	if !ok {
@@ -357,7 +377,15 @@ func run(input string) string {
 	if r, ok := out[receiver]; !ok || r.ServiceInfo.Balance != 5000 {
 		rcv = "changed"
 	}
-	return fmt.Sprintf("store=%s t=%s y=%s p=%s code=%d new=%d spent=%d rcv=%s", tagsStr(store), tagsStr(ts), y, tagsStr(pv), code, created, spent, rcv)
+	var rawLeft []int
+	for _, kv := range res.StorageKeyVal {
+		k, ok := rawKeys[kv.Key]
+		if !ok || len(kv.Value) != 3 || int(kv.Value[0]) != k {
+			k = 999
+		}
+		rawLeft = append(rawLeft, k)
+	}
+	return fmt.Sprintf("store=%s raw=%s t=%s y=%s p=%s code=%d new=%d spent=%d rcv=%s", tagsStr(store), tagsStr(rawLeft), tagsStr(ts), y, tagsStr(pv), code, created, spent, rcv)
 }
 
 func main() { h.Main(gen, run) }
